@@ -112,14 +112,16 @@ def collectFields (S : Schema) (D : Document) (o : ObjT) :
 
   The specification leaves latitude ("may coerce … when reasonable without losing information");
   the choices below are the ones api-fu documents: Int accepts integral numbers in the 32-bit range
-  and booleans (as 0/1); Float accepts any number and booleans; String only strings; Boolean only
-  booleans; ID accepts strings and integers (serialised in decimal). -/
+  and booleans (as 0/1); Float accepts any number (an integer becomes the nearest double) and
+  booleans; String only strings; Boolean only booleans; ID accepts strings and integers that fit a
+  signed 64-bit integer (serialised in decimal). The Go integer kind of a value only determines which
+  integer it is (`IntKind.wrap`), never how it is coerced. -/
 
 def asInteger? : GoVal → Option Int
-  | .int z => some z
+  | .int k z => some (k.wrap z)
   | .bool true => some 1
   | .bool false => some 0
-  | .flt m e =>
+  | .flt _ m e =>
     if 0 ≤ e then some (m * 2 ^ e.toNat)
     else if (2 ^ (-e).toNat : Int) ∣ m then some (m / 2 ^ (-e).toNat) else none
   | _ => none
@@ -132,8 +134,8 @@ def resultCoerce (k : ScalarKind) (g : GoVal) : Option Json :=
     | none => none
   | .float =>
     match g with
-    | .flt m e => some (.num m e)
-    | .int z => some (.num z 0)
+    | .flt _ m e => some (.num m e)
+    | .int k z => some (.num (roundF64 (k.wrap z)).1 (roundF64 (k.wrap z)).2)
     | .bool b => some (.num (if b then 1 else 0) 0)
     | _ => none
   | .string => match g with | .str s => some (.str s) | _ => none
@@ -141,7 +143,7 @@ def resultCoerce (k : ScalarKind) (g : GoVal) : Option Json :=
   | .id =>
     match g with
     | .str s => some (.str s)
-    | .int z => some (.str (toString z))
+    | .int k z => if k.wrap z < 2 ^ 63 then some (.str (toString (k.wrap z))) else none
     | _ => none
 
 /-- Enum result coercion: the name of the enum value whose internal value is the result. -/
